@@ -73,6 +73,11 @@ CLAIMS.update({
              note="bytearray splice semantics and file reads hand-modelled; footer array contents abstract",
              technique="Coq proof (mixed-radix index arithmetic over splices) over generated re-blocker + byte-for-byte unit correspondence + read-method oracle"),
 })
+CLAIMS.update({
+ 'C04': dict(text="Coq theorems for every trace count, every header content and every ascending field list of 89 codes, over the header machinery as GENERATED from headers.py / conversion.py / conversion_utils.py / read.py: with exhaustive and thorough detection gen_trace_header(t)[f] equals the source for regular 3D, 2D and irregular files; with heuristic detection the same under exactly the property's hypothesis (boolean predicates), and a witness that the hypothesis is needed; strip reads zero; the 89x3 table codec round-trips; writer padding = reader stride and word t of array k lies in slot k; every trace's header is captured at its own index; bytes 4096..7695 are the first 3600 SEG-Y bytes; NumPy-route arrays read back as int32 of the value.",
+             note="segyio's header parsing outside; dict/footer/capture loops hand-modelled over generated arithmetic",
+             technique="Coq proof (association-list and loop invariants) over template-generated header logic + oracle against segyio on generated SEG-Y files"),
+})
 REASONS = {}
 DEFAULT_REASON = "not yet covered by a theorem in this development (work in progress; will be claimed when its Props file exists)"
 
